@@ -719,6 +719,35 @@ pub fn worker_pool(tier: &str, out: &str) -> i32 {
             }
         }
     }
+    // tree histories on the persistent backend at depths 11 and 12 (more than 1024 leaves, removals, close and reopen),
+    // judged against the ideal tree by the E1 machinery: leaves, leaf count, roots, proofs, empty positions
+    {
+        use super::tree::{run_history, Focus, TreeOp};
+        let pat = |n: u64| -> Vec<u8> { (0..n).map(|k| if k % 2 == 0 { 1 } else { 2 }).collect() };
+        let hs: Vec<(usize, Vec<TreeOp>)> = vec![
+            (11, vec![TreeOp::Range(0, pat(1031)), TreeOp::Delete(5), TreeOp::Delete(700), TreeOp::Reopen, TreeOp::Append(1)]),
+            (11, vec![TreeOp::Range(0, pat(1500)), TreeOp::Batch(0, vec![], vec![3, 4, 5, 6]), TreeOp::Reopen, TreeOp::Set(2047, 1), TreeOp::Reopen]),
+            (12, vec![TreeOp::Range(100, pat(3001)), TreeOp::Reopen, TreeOp::Range(0, pat(64)), TreeOp::Batch(0, vec![], (200..260).collect())]),
+        ];
+        for (d, h) in hs {
+            let cap = 1u64 << d;
+            let mut pos: Vec<u64> = vec![0, 3, 5, 6, 7, 99, 100, 101, 199, 200, 259, 260, 699, 700, 701, 1023, 1024, 1027, 1028, 1029, 1030, 1031, 1499, 1500, 2047, 3099, 3100, 3101, cap - 1];
+            pos.retain(|x| *x < cap);
+            pos.sort();
+            pos.dedup();
+            let case = json!({"engine": "tree", "backend": "pmtree", "depth": d, "history": super::tree::hist_json(&h), "positions": pos});
+            for f in [Focus::C06, Focus::C07, Focus::C08, Focus::C15] {
+                for x in run_history(f, &case) {
+                    // the listed defects of the persistent backend are not the subject here
+                    if x.key.contains("default-valued-write-present") {
+                        continue;
+                    }
+                    ok = false;
+                    detail = format!("tree history at depth {d}: {} ({})", x.key, x.detail.chars().take(200).collect::<String>());
+                }
+            }
+        }
+    }
     let v = json!({"threads": std::env::var("RAYON_NUM_THREADS").unwrap_or_default(), "roots": roots, "witness_hashes": whs, "values": values, "verdicts": verdicts, "messages": messages, "reference_ok": ok, "reference_detail": detail});
     if std::fs::write(out, v.to_string()).is_err() {
         return 6;
